@@ -1,8 +1,11 @@
 #!/usr/bin/env python3
-"""Regenerates /verif/MANIFEST.json from checks.json (+ not_applicable.json) and validates it."""
+"""Regenerates /verif/MANIFEST.json from checks.d/*.json (+ not_applicable.json) and validates it."""
 import json, os, sys
 ROOT = os.path.dirname(os.path.dirname(os.path.abspath(__file__)))
-cfg = json.load(open(os.path.join(ROOT, "checks.json")))
+cfg = {}
+for f in sorted(os.listdir(os.path.join(ROOT, "checks.d"))):
+    if f.endswith(".json"):
+        cfg[f[:-5]] = json.load(open(os.path.join(ROOT, "checks.d", f)))
 na = json.load(open(os.path.join(ROOT, "not_applicable.json")))
 props = [json.loads(l)["id"] for l in open(os.path.join(ROOT, "properties.jsonl"))]
 hooks = json.load(open(os.path.join(ROOT, "hooks.json")))
